@@ -113,10 +113,12 @@ class State:
 
 
 class Segment:
-    __slots__ = ('src', 'dst', 'state', 'ret', 'events', 'kind', 'facts', 'shapes')
+    __slots__ = ('src', 'dst', 'state', 'ret', 'events', 'kind', 'facts', 'shapes', 'env')
 
-    def __init__(self, src, dst, state, ret, events, kind, facts=None, shapes=None):
+    def __init__(self, src, dst, state, ret, events, kind, facts=None, shapes=None, env=None):
         self.src, self.dst, self.state, self.ret, self.events, self.kind = src, dst, state, ret, events, kind
+        # env: for a segment ending at a loop head, the top frame's locals BEFORE the cut abstracted the loop-modified ones
+        self.env = env
         # facts / shapes at the END of the segment (for a segment ending at a loop head: before the loop cut dropped the
         # facts about this iteration's values)
         self.facts = facts if facts is not None else state.facts
@@ -853,9 +855,10 @@ class PX:
             if top and bi in loops:
                 # loop cut: abstract the loop-modified locals, finish the segment, continue from the header node once
                 pre_facts, pre_shapes = dict(st.facts), dict(st.shapes)
+                pre_env = dict(st.frames[fid])
                 key = self.cut(st, fid, bi, modified[bi], mir, live.get(bi, set()))
                 node = ('head', bi, key)
-                self.segments.append(Segment(src, node, st, None, st.events[ev0:], 'loop', pre_facts, pre_shapes))
+                self.segments.append(Segment(src, node, st, None, st.events[ev0:], 'loop', pre_facts, pre_shapes, pre_env))
                 if node in self.seen_nodes:
                     continue
                 self.seen_nodes[node] = True
